@@ -214,32 +214,37 @@ def maxContentWidth (mb : Nat) : List (Entry Doc) → Nat
   | e :: es =>
     max (if e.aligned then mb + 1 + flatWidthL e.after else flatWidthL e.before) (maxContentWidth mb es)
 
+/-- between two entries of an align group: flush the line suffixes, new line -/
+def alignSep (cfg : Cfg) (pd : St → Doc → Mode → Option St) (first : Bool) (st : St) : Option St :=
+  if first then some st else (flushWith pd st).map (pushNewline cfg)
+
+/-- the optional trailing comment of an entry after `p` padding spaces -/
+def printTrailing (cfg : Cfg) (pd : St → Doc → Mode → Option St) (t : Option (List Doc)) (p : Nat) (m : Mode)
+    (st : St) : Option St :=
+  match t with
+  | none => some st
+  | some t => docsWith pd (if p > 0 then pushText cfg st (spaces p) else st) t m
+
+/-- one entry of an align group -/
+def alignEntry (cfg : Cfg) (pd : St → Doc → Mode → Option St) (mb mcw : Nat) (m : Mode) (st : St)
+    (e : Entry Doc) : Option St :=
+  if e.aligned then
+    (docsWith pd st e.before m).bind fun st =>
+    (docsWith pd
+      (pushText cfg (if mb - flatWidthL e.before > 0 then pushText cfg st (spaces (mb - flatWidthL e.before)) else st) [32])
+      e.after m).bind fun st =>
+    printTrailing cfg pd e.trailing (trailingPadding cfg (mb + 1 + flatWidthL e.after) mcw) m st
+  else
+    (docsWith pd st e.before m).bind fun st =>
+    printTrailing cfg pd e.trailing (trailingPadding cfg (flatWidthL e.before) mcw) m st
+
 /-- phase 3 of `print_align_group` -/
 def alignLoop (cfg : Cfg) (pd : St → Doc → Mode → Option St) (mb mcw : Nat) (m : Mode) :
     Bool → St → List (Entry Doc) → Option St
   | _, st, [] => some st
-  | first, st, e :: es => do
-    let st ← if first then some st else (flushWith pd st).map (pushNewline cfg)
-    let st ← if e.aligned then do
-        let st ← docsWith pd st e.before m
-        let padding := mb - flatWidthL e.before
-        let st := if padding > 0 then pushText cfg st (spaces padding) else st
-        let st := pushText cfg st [32]
-        let st ← docsWith pd st e.after m
-        match e.trailing with
-        | none => some st
-        | some t =>
-          let p := trailingPadding cfg (mb + 1 + flatWidthL e.after) mcw
-          let st := if p > 0 then pushText cfg st (spaces p) else st
-          docsWith pd st t m
-      else do
-        let st ← docsWith pd st e.before m
-        match e.trailing with
-        | none => some st
-        | some t =>
-          let p := trailingPadding cfg (flatWidthL e.before) mcw
-          let st := if p > 0 then pushText cfg st (spaces p) else st
-          docsWith pd st t m
+  | first, st, e :: es =>
+    (alignSep cfg pd first st).bind fun st =>
+    (alignEntry cfg pd mb mcw m st e).bind fun st =>
     alignLoop cfg pd mb mcw m false st es
 
 /-- `Printer::print_doc` -/
